@@ -3,11 +3,13 @@ CFG = {'assumptions': ['version strings of at most 16 bytes that do not end in N
                  'all bytes in [0,256); body lengths below 2^63',
                  'body codec: dec (enc m) = Some m and size m = |enc m| - proved for the two codecs the harness uses (raw legacy '
                  'message, wrappers.BytesValue with its varint); protobuf\'s wire codec for other message types is assumed, not modelled',
-                 'the reader never returns (0, nil): chunks are non-empty'],
+                 'the reader is a finite list of chunks; Reads returning (0, nil) - empty chunks - are exercised by pbcmpl.Roundtrip/empties and covered by the theorems, except an empty LAST chunk'],
  'files': ['pbcmpl/pbcmpl.go', 'pbcmpl/header.go'],
  'go': {'pbcmpl.Marshal': 'pbcmpl.Marshal + pbcmpl.Size + pbcmpl.HeaderSize',
         'pbcmpl.Roundtrip': 'pbcmpl.Marshal (n frames into one buffer) then pbcmpl.Unmarshal until io.EOF over a chunked reader',
-        'pbcmpl.ReadHeader': 'pbcmpl.Marshal then pbcmpl.ReadHeader over a chunked reader'},
+        'pbcmpl.ReadHeader': 'pbcmpl.Marshal then pbcmpl.ReadHeader over a chunked reader',
+        'pbcmpl.Roundtrip/empties': 'widening: as pbcmpl.Roundtrip with a reader that also returns (0, nil) - empty chunks - at given positions',
+        'pbcmpl.Walk/frames': 'widening: pbcmpl.Marshal (n frames into one buffer), then a user loop of pbcmpl.ReadHeader + io.ReadFull(GetBodySize) over a chunked reader, no decoding'},
  'rule': 'cases = exhaustive sweep {raw legacy message, wrappers.BytesValue} x {no GetVersion, version length 0..16 in three byte '
          'styles} x body length {0,1,31,32,33,127,128} x chunking {whole, 1 byte, 7, 32+5} + bodies of 511..multi-KB (around '
          "io.ReadAll's 512-byte buffer) + random streams of 1..5 frames read back through random chunkings, optionally with the "
